@@ -87,5 +87,6 @@ pub mod site {
     pub const R2: u32 = 14;
     pub const P1: u32 = 15;
     pub const P2: u32 = 16;
-    pub const COUNT: u32 = 17;
+    pub const E1: u32 = 17;
+    pub const COUNT: u32 = 18;
 }
